@@ -27,6 +27,7 @@ struct Ctx4 {
     auto s1 = m.Emplace(CstType::structured, "ℬ(X1×X1)");
     m.Emplace(CstType::term, "X1\\X1"); m.Emplace(CstType::function, "[a∈ℬ(X1)] {a}"); m.Emplace(CstType::predicate, "[a∈ℬ(X1)] a=X1");
     m.Emplace(CstType::function, "[a∈ℬ(X1)] {debool(a)}∪{debool(a)}");     // F2: fails at run time inside the inlined body when the argument has two elements
+    m.Emplace(CstType::function, "[a∈ℬℬℬ(X1)] card(a)");                    // F3: needs a value; a call with a property argument is audited inside this body
     m.Emplace(CstType::axiom, "X1=X1"); m.Emplace(CstType::theorem, "∀a∈X1 a=a");
     for (int i = 0; i < 2; ++i) { m.Values().AddBasicElement(x1, "x" + std::to_string(i)); m.Values().AddBasicElement(c1, "c" + std::to_string(i)); }
     (void)m.Values().SetStructureData(s1, object::Factory::Set({ object::Factory::TupleV({ 1, 2 }) }));
@@ -35,7 +36,9 @@ struct Ctx4 {
       [mp](const std::string& n) -> std::optional<object::StructuredData> { auto uid = mp->Core().FindAlias(n); if (!uid) return std::nullopt; return mp->Values().SDataFor(*uid); });
     semantic::RSForm form{}; 
     form.Emplace(CstType::base); form.Emplace(CstType::constant); form.Emplace(CstType::structured, "ℬ(X1×X1)"); form.Emplace(CstType::term, "X1\\X1");
-    form.Emplace(CstType::function, "[a∈ℬ(X1)] {a}"); form.Emplace(CstType::predicate, "[a∈ℬ(X1)] a=X1"); form.Emplace(CstType::axiom, "X1=X1"); form.Emplace(CstType::theorem, "∀a∈X1 a=a");
+    form.Emplace(CstType::function, "[a∈ℬ(X1)] {a}"); form.Emplace(CstType::predicate, "[a∈ℬ(X1)] a=X1");
+    form.Emplace(CstType::function, "[a∈ℬ(X1)] {debool(a)}∪{debool(a)}"); form.Emplace(CstType::function, "[a∈ℬℬℬ(X1)] card(a)");
+    form.Emplace(CstType::axiom, "X1=X1"); form.Emplace(CstType::theorem, "∀a∈X1 a=a");
     ja = std::make_unique<api::RSFormJA>(api::RSFormJA::FromData(std::move(form)));
     jSchema = ja->ToJSON();
   }
